@@ -435,9 +435,11 @@ def _execute(ctx, plan, world):
     if fate == "shutdown":
         world.run(plan["shutdown_dt"])
         ctx.log("shutdown", t=loop.time())
-        dirty = [n for n in names if mgrs[n]._dirty._flag]
-        if dirty:
-            ctx.probe("shutdown_with_dirty")
+        try:        # reach probe only; must not depend on the data manager's internals being there
+            if any(mgrs[n]._dirty.is_set() for n in names):
+                ctx.probe("shutdown_with_dirty")
+        except AttributeError:
+            pass
         machine.thread_stopper.set()
         # clean shutdown: the writer threads are allowed to run to completion
         loop.stall_enabled = False
@@ -689,8 +691,11 @@ def _execute_boot(ctx, plan):
     if plan["fate"] == "shutdown" and not env["crashed"]:
         sim.run(plan["shutdown_dt"])
         ctx.log("shutdown", t=sim.now)
-        if m.variables.machine_var_data_manager._dirty._flag:
-            ctx.probe("shutdown_with_dirty")
+        try:        # reach probe only; must not depend on the data manager's internals being there
+            if m.variables.machine_var_data_manager._dirty.is_set():
+                ctx.probe("shutdown_with_dirty")
+        except AttributeError:
+            pass
         m.thread_stopper.set()
         sim.loop.stall_enabled = False
         for _ in range(100):
